@@ -1465,8 +1465,10 @@ func (self *Analyzer) matchExpression(node pAst.MatchExpression) ast.AnalyzedMat
 		for _, lit := range arm.Literals {
 			if !lit.IsLiteral() {
 				defaultArmSpan = &arm.Range
-				action := self.expression(arm.Action)
-				defaultArm = &action
+				// (the action was analysed above: a second analysis doubles the work - and every diagnostic - per
+				// nesting level of default arms)
+				defaultAction := action
+				defaultArm = &defaultAction
 				containsDefault = true
 			}
 		}
